@@ -93,9 +93,17 @@ func (h *History) Write(s string) (int, error) {
 		return h.Len(), err
 	}
 
-	f, err := os.OpenFile(h.filename, os.O_APPEND|os.O_CREATE|os.O_WRONLY, 0600)
+	f, err := os.OpenFile(h.filename, os.O_APPEND|os.O_CREATE|os.O_RDWR, 0600)
 	if err != nil {
 		return 0, err
+	}
+
+	// a previous session may have died in the middle of a write: start on a fresh line
+	if fi, err := f.Stat(); err == nil && fi.Size() > 0 {
+		last := make([]byte, 1)
+		if _, err := f.ReadAt(last, fi.Size()-1); err == nil && last[0] != '\n' {
+			b = append([]byte{'\n'}, b...)
+		}
 	}
 
 	_, err = f.Write(append(b, '\n'))
